@@ -451,10 +451,12 @@ func isoconcHandle(c map[string]J) map[string]J {
 	go func() { wg.Wait(); close(allDone) }()
 	select {
 	case <-allDone:
-	case <-time.After(wd(30 * time.Second)):
-		// (the goroutines stay blocked: the worker is of no further use, "fatal" makes the pool replace it)
+	case <-time.After(90 * time.Second):
+		// Every program has finished alone within its own watchdogs (a few seconds); 90 s is far beyond what the same programs need
+		// side by side, also on a loaded machine and under the race detector - and below the pool's limit for a case, which would
+		// otherwise discard the dead worker as a crash. (The goroutines stay blocked: "fatal" makes the pool replace the worker.)
 		return map[string]J{"status": "mismatch", "input": input, "what": "the interpreters running concurrently", "expected": "every one of them finishes (each finishes when run alone)",
-			"observed": "blocked for 30s: they wait for each other", "fatal": true}
+			"observed": "blocked for 90s: they wait for each other", "fatal": true}
 	}
 	engine.VerifHooks.OnIntern = nil
 	for i := range progs {
